@@ -880,7 +880,35 @@ pub fn gen_c03(thorough: bool, rng: &mut Rng, out: &mut Vec<String>) {
             assert_eq!(k, pats.len(), "every real of the stream is patched exactly once");
         }
         let expect = if lib_extra.is_some() { a("unsupported") } else { lib_s(&lib) };
+        // every eighth conformant stream is preceded by a read that FAILS part-way through a structure (the same
+        // stream cut inside its last structure): nothing of a failed read may leak into the next one
+        if i % 8 == 5 {
+            let spans = record_spans(&bytes);
+            if let Some(k) = spans.iter().rposition(|(off, _)| bytes[off + 2] == 0x11) { // the last ENDEL
+                let cut = spans[k].0 + spans[k].1;
+                out.push(format!("gds.read {}", of_bytes(&bytes[..cut])));
+            }
+        }
         out.push(format!("gds.c03 {} {}", of_bytes(&bytes), expect));
+        if i % 16 == 6 { out.push(format!("gds.open {} {}", of_bytes(&bytes), expect)); }
+    }
+    // files of more than 64 KiB read through `open`: many text elements with strings of a few hundred bytes, so that
+    // string payloads lie across every multiple of 65536 at varying alignments
+    for k in 0..(if thorough { 24 } else { 6 }) {
+        let mut lib = GdsLibrary::new("big");
+        let mut st = GdsStruct::new("s");
+        st.dates = lib.dates.clone();
+        let mut total = 0usize;
+        let mut j = 0;
+        while total < 70_000 + 30_000 * (k % 3) {
+            let len = 150 + (rng.below(700) as usize) + k;
+            st.elems.push(GdsElement::GdsTextElem(GdsTextElem { string: format!("{:05}", j).repeat(len / 5 + 1)[..len].to_string(), layer: 1, texttype: 0, xy: GdsPoint::new(j, -j), ..Default::default() }));
+            total += len + 40;
+            j += 1;
+        }
+        lib.structs.push(st);
+        let bytes = ref_encode(&lib, &Choices { trailing: vec![], lib_extra: None });
+        out.push(format!("gds.open {} {}", of_bytes(&bytes), lib_s(&lib)));
     }
 }
 fn record_spans(bytes: &[u8]) -> Vec<(usize, usize)> {
@@ -1135,14 +1163,28 @@ pub fn oracle_c02(line: &str) -> String {
 }
 pub fn oracle_c03(line: &str) -> String {
     let p = match Sexp::parse_all(line) {
-        Some(p) if p.len() == 3 && p[0].atom() == Some("gds.c03") => p,
+        Some(p) if p.len() == 3 && (p[0].atom() == Some("gds.c03") || p[0].atom() == Some("gds.open")) => p,
+        Some(p) if p.len() == 2 && p[0].atom() == Some("gds.read") => {
+            // a failing read placed before a conformant stream: executed here too (same thread, same order), judged by the next case
+            if let Some(b) = p[1].bytes() { let _ = std::panic::catch_unwind(|| GdsLibrary::from_bytes(&b)); }
+            return "na".into();
+        }
         _ => return "na".into(),
     };
     let bytes = match p[1].bytes() {
         Some(b) => b,
         None => return "na".into(),
     };
-    let res = match std::panic::catch_unwind(|| GdsLibrary::from_bytes(&bytes)) {
+    let via_file = p[0].atom() == Some("gds.open");
+    let res = match std::panic::catch_unwind(|| {
+        if via_file {
+            let path = std::env::temp_dir().join(format!("l21h-oracle-open-{}.gds", std::process::id()));
+            let _ = std::fs::write(&path, &bytes);
+            let r = GdsLibrary::open(&path);
+            let _ = std::fs::remove_file(&path);
+            r
+        } else { GdsLibrary::from_bytes(&bytes) }
+    }) {
         Err(_) => return "fail reader panicked".into(),
         Ok(r) => r,
     };
